@@ -32,7 +32,7 @@ fn by_src(list: &[(u16, u16)]) -> Vec<Vec<u16>> {
 
 fn ops_of(prop: &str) -> &'static [u16] {
     match prop {
-        "C03" => &[CMP_FF, CMP_FF, CMP_FI, CMP_FI, CMP_F32, CMP_F64, CMP_SAME],
+        "C03" => &[CMP_FF, CMP_FF, CMP_FF, CMP_FI, CMP_FI, CMP_FI, CMP_F32, CMP_F64, CMP_F32, CMP_F64, CMP_SAME, CMP_F16, CMP_BF16],
         "C04" => &[CONV_FF, CONV_FF, CONV_FF, CONV_FI, CONV_FI, CONV_IF, CONV_IF, CONV_BF, FROM_FF, LOSSY_FF, FROM_INT, INT_FROM_FIX, INT_LOSSY_FIX, FROM_BOOL],
         "C05" => &[F32_TO_FIX, F64_TO_FIX, F32_TO_FIX, F64_TO_FIX, FIX_TO_F32, FIX_TO_F64, FLOAT_FROM_FIX],
         _ => &[],
@@ -42,6 +42,8 @@ fn ops_of(prop: &str) -> &'static [u16] {
 fn fk_of(op: u16) -> FK {
     match op {
         CMP_F32 | F32_TO_FIX | FIX_TO_F32 => FK::F32,
+        CMP_F16 => FK::F16,
+        CMP_BF16 => FK::BF16,
         _ => FK::F64,
     }
 }
@@ -332,12 +334,12 @@ impl Engine for Conv {
                             _ => l.wrap(&l.val(c.a).add_i64((r3 % 5) as i64 - 2)),
                         };
                     }
-                    CMP_F32 | CMP_F64 | F32_TO_FIX | F64_TO_FIX => {
+                    CMP_F32 | CMP_F64 | CMP_F16 | CMP_BF16 | F32_TO_FIX | F64_TO_FIX => {
                         let l = L::from_idx(lay as usize);
                         c.a = pattern(l, ia);
                         let k = fk_of(op);
                         c.b = float_pattern(k, l, pattern(l, ib), FCLASS_TABLE[fcls], r3, r4) as u128;
-                        if (op == CMP_F32 || op == CMP_F64) && FCLASS_TABLE[fcls] == 5 {
+                        if matches!(op, CMP_F32 | CMP_F64 | CMP_F16 | CMP_BF16) && FCLASS_TABLE[fcls] == 5 {
                             // compare x with floats near x itself
                             c.b = float_pattern(k, l, c.a, 5, r3, r4) as u128;
                         }
@@ -617,7 +619,7 @@ impl Engine for Conv {
                 });
                 ev.nontrivial = close || outside || (op == CMP_SAME && ord == Ordering::Equal);
             }
-            CMP_F32 | CMP_F64 => {
+            CMP_F32 | CMP_F64 | CMP_F16 | CMP_BF16 => {
                 let k = fk_of(op);
                 let fv = flt::decode(k, c.b as u64);
                 let av = sl.val(a);
@@ -883,6 +885,7 @@ pub fn fuzz_case(prop: &str, op_sel: u16, lay: u16, sel2: u16, a: u128, b: u128)
             c.b &= 1;
         }
         CMP_F32 | F32_TO_FIX => c.b &= 0xffff_ffff,
+        CMP_F16 | CMP_BF16 => c.b &= 0xffff,
         CMP_F64 | F64_TO_FIX => c.b &= 0xffff_ffff_ffff_ffff,
         CMP_FF | CMP_FI | CMP_SAME => c.b &= dl.mask(),
         _ => c.b = 0,
